@@ -25,7 +25,7 @@ REQUIRED = ["calls.Perm.direct_sum", "calls.Perm.skew_sum", "calls.Perm.compose"
             "calls.Perm.remove_element", "calls.Perm.inflate", "calls.Perm.shift_right", "calls.Perm.shift_up",
             "calls.Perm.sum_decomposition", "calls.Perm.skew_decomposition", "calls.Perm.block_decomposition",
             "calls.Perm.is_simple", "calls.Perm.children", "calls.Perm.coveredby", "calls.Perm.contract_bonds",
-            "contracts.evaluated", "laws.checked", "inflate.with_empty_or_none"]
+            "contracts.evaluated", "laws.checked", "inflate.with_empty_or_none", "aliasing.mutated_results"]
 MIN_NONTRIVIAL = 2000
 CTX = None
 MON = None
@@ -332,6 +332,22 @@ def chk_unary(ctx, p):
     inv = P.inverse()
     if inv.inverse() != P or P.compose(inv) != Perm.identity(n) or inv * P != Perm.identity(n):
         report("unary", [p], "inverse laws fail")
+    # history / aliasing: a caller that empties a returned container must not change later answers, and operations
+    # applied to objects that are themselves results behave like on fresh ones (all judged by the monitors)
+    for name in ("children", "coveredby", "sum_decomposition", "skew_decomposition", "block_decomposition"):
+        res = getattr(P, name)()
+        res.clear()
+        ctx.count("aliasing.mutated_results")
+        getattr(P, name)()
+    for blocks in (P.block_decomposition(),):
+        for b in blocks:
+            b.clear()
+        P.block_decomposition(), P.maximum_block(), P.is_simple()
+    D = P.inverse().inverse()
+    D.sum_decomposition(), D.skew_decomposition(), D.is_simple(), D.children()
+    if n:
+        E = P.insert(0, 0).remove(0)
+        E.block_decomposition(), E.is_sum_decomposable(), E.contract_bonds()
 
 
 def chk_binary(ctx, p, q, r):
